@@ -144,12 +144,15 @@ def binding_tv(ctx, scenarios, depth):
 def run(ctx):
     if ctx.only is None:
         vlib.tlc_mc(ctx, "Indexer_MC", ctx.pick("Indexer_MC_quick.cfg", "Indexer_MC.cfg"), coverage=True, workers=4)
-        for cfg, inv in (("Indexer_MC_original.cfg", "stale_after_gap"), ("Indexer_MC_original_restart.cfg", "second_restart")):
+        sens = [("Indexer_MC_original.cfg", "stale_after_gap")]
+        if not ctx.quick:
+            sens.append(("Indexer_MC_original_restart.cfg", "second_restart"))
+        for cfg, inv in sens:
             r = vlib.tlc_mc(ctx, "Indexer_MC", cfg, label="orig-" + inv, expect_violation=True, workers=2)
             ctx.cov["design_step_detects_original_" + inv] = bool(r["violated"])
             if not r["violated"]:
                 raise vlib.Infra("sensitivity: the model of the indexer as originally coded no longer violates (%s)" % cfg)
-    fails = binding_tv(ctx, ctx.pick(60, 1200), ctx.pick(30, 40))
+    fails = binding_tv(ctx, ctx.pick(50, 800), ctx.pick(30, 40))
     vlib.report_failures(ctx, fails, describe)
     ctx.cov["rule"] = ("tv: seeded histories of 30/40 calls on the real Indexer (pebble under .work): window 1-8, 0-2 txs per "
                        "block, Notify of the next height / a height 2..w+3 ahead (two thirds of the histories) / the latest "
